@@ -31,7 +31,8 @@ ASSUMED = [
     {"what": "sqlparser SelectItem / Ident are shims with the real variant and field names; HashSet<Ident> is the shim IdentSet keyed by (value, quote_style); "
              "`idents.iter().any(|ident| seen.insert(KEY))` is insert_any_* : inserts the keys in order until one is new",
      "keys": ["struct IdentSet", "fn insert", "fn insert_any_exact", "fn insert_any_other", "spec fn other_key", "fn insert_other", "fn clone_ident"]},
-    {"what": "Vec<CId>::contains is membership (cid_vec_contains)", "keys": ["fn cid_vec_contains"]},
+    {"what": "Vec<CId>::contains is membership (cid_vec_contains); the sort columns a CTE has to carry are gathered by external, here unconstrained functions "
+             "(unit sort_infer SC1-3 is about which columns those are)", "keys": ["fn cid_vec_contains", "fn emitted_sort_columns", "fn extend_sort_columns"]},
     common_std.STR_PREDS_ASSUMPTION,
 ]
 TRUSTED = [
@@ -230,6 +231,9 @@ def build(X):
     then_it.rewrite_re("R5", r"let select = result\.iter_mut\(\)\.find_map\(\|x\| x\.as_select_mut\(\)\)\.unwrap\(\);", "", count=1,
                        why="search of the Select transform in the pipeline: `select` is a parameter of the slice")
     then_it.rewrite_re("R5", r"\bselect\.contains\(&cid\)", "cid_vec_contains(select, &cid)", count=None, why="Vec<CId>::contains")
+    then_it.rewrite_re("R5", r"let mut (\w+) = result\s*\.iter\(\)\s*\.filter_map\(\|x\| x\.as_sort\(\)\)\s*\.flatten\(\)\s*\.cloned\(\)\s*\.collect_vec\(\);", r"let mut \1 = emitted_sort_columns();", count=None,
+                       why="iterator chain over the emitted transforms: the columns of the Sort transforms of this pipeline (external, unconstrained here; unit sort_infer states what must be selected)")
+    then_it.rewrite_re("R5", r"\b(\w+)\.extend\(sorting\.iter\(\)\.cloned\(\)\);", r"extend_sort_columns(&mut \1, &sorting);", count=None, why="Vec::extend with the cloned elements")
     then_it.drop_logging()
     then_it.text = ("pub fn cte_sort_columns(main_relation: bool, select: &mut Vec<rq::CId>, sorting: Vec<ColumnSort<rq::CId>>)\n"
                     "    ensures\n"
@@ -245,4 +249,6 @@ def build(X):
     """, fn_name="cte_sort_columns")
     then_it.rewrites.append({"rule": "slice", "what": "then-block of `if !self.main_relation` wrapped as fn cte_sort_columns(main_relation, select, sorting)"})
 
-    return PRELUDE + model + tsi.text + "\n" + view + dd.text + "\n" + then_it.text + "\n} // verus!\nfn main() {}\n"
+    cte_shim = ("#[verifier::external_body] pub fn emitted_sort_columns() -> Vec<ColumnSort<rq::CId>> { unimplemented!() }\n"
+                "#[verifier::external_body] pub fn extend_sort_columns(v: &mut Vec<ColumnSort<rq::CId>>, w: &Vec<ColumnSort<rq::CId>>) { unimplemented!() }\n")
+    return PRELUDE + model + tsi.text + "\n" + view + dd.text + "\n" + cte_shim + then_it.text + "\n} // verus!\nfn main() {}\n"
